@@ -18,7 +18,9 @@ MODELS_DOC = [
     "str::lines (terminator \\n or \\r\\n, final unterminated line kept iff non-empty)",
     "str::trim / trim_start / trim_end (ASCII part of char::is_whitespace: \\t \\n \\x0b \\x0c \\r space)",
     "str::starts_with / ends_with / strip_prefix (&str or char pattern)",
-    "str::split_whitespace, str::replace(char, &str), str::is_empty, str::len, &s[a..], to_string/to_owned/clone",
+    "str::split_whitespace, str::replace(char, &str), str::is_empty, str::len, &s[a..] (a symbolic; a > len = panic), to_string/to_owned/clone",
+    "str::find(char) / str::rfind(char) -> Option<usize> (first / last byte index), str::bytes() / str::chars() as a sequence of 8-bit codes (ASCII only), byte literals b'x'",
+    "Option::map_or(default, closure) (default evaluated eagerly, closure inlined under the Some guard)",
     "String::push_str / push / pop, [&str]::join(&str)",
     "format!/write!/bail! with `{}` and inline `{name}` of strings, chars, usize (decimal) and Display impls interpreted from source",
     "usize: + - (overflow = panic), saturating_sub, comparisons; 64-bit bit-vectors",
@@ -360,6 +362,16 @@ class Models:
             p = self.pattern_arg(args[0], node)
             c = bstr.prefixof(p, b)
             return None, option(c, StrV(bstr.substr_from(b, p.n).tight()))
+        if m in ("rfind", "find"):
+            if not isinstance(args[0], CharV):
+                self.uns("str::%s with a non-char pattern" % m, node)
+            pat = args[0].term
+            fn = bstr.rfind_char if m == "rfind" else bstr.find_char
+            found, idx = fn(b, lambda c: Eq(c, pat))
+            return None, option(found, IntV(ZeroExt(idx, IW), max(b.cap - 1, 0)))
+        if m in ("bytes", "chars"):
+            # ASCII only: bytes and chars coincide (u8 and char are both modelled as 8-bit codes)
+            return None, VecV(b.n, [CharV(c) for c in b.chars])
         if m == "replace":
             if not isinstance(args[0], CharV) or bvval(args[0].term) is None:
                 self.uns("str::replace with a non-literal char pattern", node)
@@ -456,6 +468,10 @@ class Models:
             for i in range(len(recv.elems) - 1, -1, -1):
                 g = Ult(L(i), recv.n)
                 r = self.guarded_call(g, clo, [recv.elems[i]], node)
+                if r is None:       # slot beyond the sequence's length
+                    continue
+                if not isinstance(r, BoolV):
+                    self.uns("%s closure not returning bool" % m, node)
                 if m == "any":
                     acc = Ite(g, Or(r.term, acc), FALSE)
                 else:
@@ -547,6 +563,16 @@ class Models:
                 return None, (p[0] if p else UNIT)
             if m in ("as_ref", "as_deref"):
                 return None, recv
+            if m == "map_or":
+                if len(args) != 2 or not isinstance(args[1], ClosureV):
+                    self.uns("Option::map_or with a non-closure", node)
+                p = recv.payload.get("Some")
+                dflt = args[0]
+                if p is None:
+                    return None, dflt
+                r = it.branch(recv.is_variant("Some"), lambda: it.deref(it.call_closure(args[1], [p[0]])),
+                              lambda: dflt, "Option::map_or")
+                return None, r
         if recv.ty == "Result":
             if m == "is_ok":
                 return None, BoolV(recv.is_variant("Ok"))
